@@ -286,9 +286,15 @@ def reader_rejected(repo: Repo) -> Tuple[Set[str], Dict[str, str]]:
         for v in classify_guard(test):
             got.add(v)
             where[v] = f'{R}:{test.lineno}'
-        t = norm(test)
-        if 'overlap' in t or '_is_collision' in t:
-            got.add('V7')
+    # overlap rejection lives in a helper called from _init_memory
+    for c in calls(f):
+        if dotted(c.func) == 'self._validate_segments_not_overlapping' and repo.has_func(R, 'Reader._validate_segments_not_overlapping'):
+            hf = repo.func(R, 'Reader._validate_segments_not_overlapping')
+            tests = [norm(t) for t, r, _ in raise_guards(hf) if raised_class(r) == 'FlipJumpReadFjmException']
+            srt = any(isinstance(x, ast.Call) and dotted(x.func) == 'sorted' for x in ast.walk(hf))
+            if srt and any(t.replace(' ', '') in ('start2<end1', 'end1>start2') for t in tests):
+                got.add('V7')
+                where['V7'] = f'{R}:{hf.lineno}'
     return got, where
 
 
